@@ -118,7 +118,12 @@ class SmtLibSolver(Solver): # TODO this class is defined twice in pysmt. Here an
 
     def _get_answer(self):
         """Reads a line from STDOUT pipe"""
-        res = self.solver_stdout.readline().strip()
+        res = self.solver_stdout.readline()
+        # Blank lines carry no answer: e.g., _get_value_answer stops reading
+        # at the closing parenthesis and leaves the end of the line behind
+        while res != "" and res.strip() == "":
+            res = self.solver_stdout.readline()
+        res = res.strip()
         self._debug("Read: %s", res)
         return res
 
